@@ -200,7 +200,10 @@ func (m *refMap) apply(op string) string {
 		}
 		return "val -1"
 	case "H":
-		return fmt.Sprintf("has %v", m.idx(arg(1)) >= 0)
+		if m.idx(arg(1)) >= 0 {
+			return "has true"
+		}
+		return "has false"
 	case "L":
 		return "len " + strconv.Itoa(len(m.es))
 	case "E", "A":
@@ -289,8 +292,18 @@ func (a astMap) EachSafe(fn func(string, int)) {
 	a.m.EachSafe(func(k string, n jschema.ASTNode) { fn(k, atoi(n.Value)) })
 }
 func (a astMap) JSON() ([]byte, error) { return a.m.MarshalJSON() }
+var valJSONCache sync.Map
+
 func (a astMap) ValueJSON(k string, v int) string {
+	type ck struct {
+		k string
+		v int
+	}
+	if s, ok := valJSONCache.Load(ck{k, v}); ok {
+		return s.(string)
+	}
 	b, _ := json.Marshal(astVal(k, v))
+	valJSONCache.Store(ck{k, v}, string(b))
 	return string(b)
 }
 
@@ -330,7 +343,11 @@ func (a ruleMap) EachSafe(fn func(string, int)) {
 }
 func (a ruleMap) JSON() ([]byte, error) { return a.m.MarshalJSON() }
 func (a ruleMap) ValueJSON(_ string, v int) string {
+	if s, ok := valJSONCache.Load(v); ok {
+		return s.(string)
+	}
 	b, _ := json.Marshal(ruleVal(v))
+	valJSONCache.Store(v, string(b))
 	return string(b)
 }
 
@@ -352,7 +369,14 @@ func newMap(kind string) omap {
 	}
 }
 
-func keyStr(k int) string { return "k" + strconv.Itoa(k) }
+var keyStrs = [...]string{"k0", "k1", "k2", "k3", "k4", "k5", "k6", "k7"}
+
+func keyStr(k int) string {
+	if k >= 0 && k < len(keyStrs) {
+		return keyStrs[k]
+	}
+	return "k" + strconv.Itoa(k)
+}
 func keyInt(s string) int {
 	if len(s) < 2 || s[0] != 'k' {
 		return -999
@@ -415,7 +439,7 @@ func decodeJSON(b []byte) string {
 
 // runPublic drives one public map. jsonRaw[i] holds, for J ops, a non-empty
 // complaint when the raw bytes differ from the demanded JSON text.
-func runPublic(kind string, ops []string, deep bool) (out []string) {
+func runPublic(kind string, ops []string, deep bool, ref []string) (out []string) {
 	out = make([]string, 0, len(ops)+1)
 	defer func() {
 		if r := recover(); r != nil {
@@ -428,7 +452,7 @@ func runPublic(kind string, ops []string, deep bool) (out []string) {
 		each(func(k string, v int) { tr = append(tr, kv(keyInt(k), v)) })
 		return strings.Join(tr, ",")
 	}
-	for _, op := range ops {
+	for opi, op := range ops {
 		po := parseOp(op)
 		arg := func(i int) int {
 			if i == 1 {
@@ -479,7 +503,11 @@ func runPublic(kind string, ops []string, deep bool) (out []string) {
 		case "V":
 			out = append(out, "val "+strconv.Itoa(m.GetValue(keyStr(arg(1)))))
 		case "H":
-			out = append(out, fmt.Sprintf("has %v", m.Has(keyStr(arg(1)))))
+			if m.Has(keyStr(arg(1))) {
+				out = append(out, "has true")
+			} else {
+				out = append(out, "has false")
+			}
 		case "L":
 			out = append(out, "len "+strconv.Itoa(m.Len()))
 		case "E":
@@ -492,6 +520,16 @@ func runPublic(kind string, ops []string, deep bool) (out []string) {
 				out = append(out, "json ERR "+err.Error())
 				break
 			}
+			if !deep && opi < len(ref) && strings.HasPrefix(ref[opi], "json ") {
+				// fast path: the raw text must be exactly the JSON object the
+				// reference state demands (keys in insertion order)
+				if want := expectedJSON(m, ref[opi][5:]); want == string(b) {
+					out = append(out, ref[opi])
+				} else {
+					out = append(out, "json RAW "+string(b)+" WANT "+want)
+				}
+				break
+			}
 			dec := decodeJSON(b)
 			// the raw text must be exactly the insertion-ordered object
 			if want := expectedJSON(m, dec); !strings.HasPrefix(dec, "BAD-JSON") && want != string(b) {
@@ -499,10 +537,6 @@ func runPublic(kind string, ops []string, deep bool) (out []string) {
 				break
 			}
 			// and encoding/json must accept it through the Marshaler interface, too
-			if !deep {
-				out = append(out, "json "+dec)
-				break
-			}
 			if b2, err := json.Marshal(m.(interface{ inner() json.Marshaler }).inner()); err != nil || !bytes.Equal(b, b2) {
 				out = append(out, fmt.Sprintf("json MARSHALER %s vs %s (%v)", b, b2, err))
 				break
@@ -591,7 +625,7 @@ func evalSeq(ops []string, wantModel bool, nmut int) result {
 		res.key = strings.Join(ops, ";")
 	}
 	for _, kind := range kinds {
-		got := runPublic(kind, ops, deep)
+		got := runPublic(kind, ops, deep, ref)
 		if !sameObs(got, ref) {
 			res.diffs = append(res.diffs, vh.Diff{Component: "C19-ref", Input: kind + ": " + strings.Join(ops, ";"),
 				Impl: firstDiff(got, ref, ops), Model: "insertion-ordered association list: " + strings.Join(ref, " | ")})
@@ -612,7 +646,7 @@ func evalSeq(ops []string, wantModel bool, nmut int) result {
 		res.modelReq = "omap " + strings.Join(cops, ";")
 		// real observations (ASTNodes is the representative; all kinds were
 		// just compared with the same reference)
-		res.modelImpl = strings.Join(runPublic("ASTNodes", cops, false), "|")
+		res.modelImpl = strings.Join(runPublic("ASTNodes", cops, false, nil), "|")
 	}
 	return res
 }
@@ -661,9 +695,11 @@ func randomSeq(r *rand.Rand, maxLen, nk int) []string {
 	return ops
 }
 
-// Run is the command c19-omap.  Args: --model (also compare with the Lean
-// driver's `omap` command), --model-full (thorough: send length-6 sequences
-// to the model as well).
+// Run is the command c19-omap.  The comparison with the Lean driver's `omap`
+// command is ON by default (--no-model switches it off; --model-full also
+// sends the length-6 sequences of the thorough tier to the model).  Request:
+// `omap <op>;<op>;…` (hook op syntax, no J); expected reply: the per-op
+// observations joined by '|' followed by `|final <k=v,…>|<len>`.
 func Run(args []string) {
 	if pf := os.Getenv("C19_CPUPROFILE"); pf != "" {
 		f, _ := os.Create(pf)
@@ -671,9 +707,11 @@ func Run(args []string) {
 		defer pprof.StopCPUProfile()
 	}
 	debug.SetGCPercent(400) // allocation-heavy, tiny live heap
-	useModel, modelFull := false, false
+	useModel, modelFull := true, false
 	for _, a := range args {
 		switch a {
+		case "--no-model":
+			useModel = false
 		case "--model":
 			useModel = true
 		case "--model-full":
@@ -846,7 +884,7 @@ func Run(args []string) {
 	if useModel {
 		rep.Extra["model"] = fmt.Sprintf("omap requests for exhaustive length <= %d and all random sequences", modelLen)
 	} else {
-		rep.Extra["model"] = "off (pass --model)"
+		rep.Extra["model"] = "off (--no-model)"
 	}
 	rep.Finish()
 }
